@@ -1293,9 +1293,46 @@ func mapEncoderAnalysis(p *Prog, r *Report, rule string) *tagAnalysis {
 			ev = "text"
 		}
 		a.shape(ev, parts, whole, pos)
+		// indentation must not follow the element's own text: between text and the end tag it would become character data
+		// (the indented encoder may differ from the compact one in inter-element white space only)
+		hasNL := false
+		for _, prt := range parts {
+			if sc, ok := constString(prt); ok && strings.Contains(sc, "\n") {
+				hasNL = true
+			}
+		}
+		if ev == "ws" && !hasNL && t.t == tsContent && t.vals["$txt"] == "T" {
+			k := "indentation is written after the element's text: it becomes part of the character data"
+			if _, dup := a.viol[k]; !dup {
+				a.viol[k] = a.p.Pos(pos)
+				if os.Getenv("MXJ_TAGTRACE") != "" {
+					fmt.Fprintf(os.Stderr, "TAGTRACE %s @%s: %s [%s]\n", k, a.p.Pos(pos), t.trace, t.key())
+				}
+			}
+		}
 		a.apply(t, ev, pos)
+		switch ev {
+		case "text":
+			t.vals["$txt"] = "T"
+		case "close":
+			sc, isC := constString(parts[0])
+			if len(parts) > 1 || (isC && sc != ">") {
+				t.vals["$txt"] = "T"
+			} else {
+				delete(t.vals, "$txt")
+			}
+		case "ws":
+			if hasNL {
+				delete(t.vals, "$txt")
+			}
+		case "start", "end", "closeend", "selfclose":
+			delete(t.vals, "$txt")
+		}
 	}
-	a.onRecurse = func(t *tagTuple, pos token.Pos) { a.apply(t, "recurse", pos) }
+	a.onRecurse = func(t *tagTuple, pos token.Pos) {
+		a.apply(t, "recurse", pos)
+		delete(t.vals, "$txt")
+	}
 	a.finalOK = func(st int) bool { return st == tsDone || st == tsNone }
 	a.isDone = func(st int) bool { return st == tsDone }
 	return a
@@ -2109,7 +2146,7 @@ func (a *tagAnalysis) callInto(fc *frame, t tagTuple, cm *ssa.CallCommon, g *ssa
 		}
 	}
 	start := tagTuple{t: t.t, vals: map[string]string{}, types: map[string]tset{}, trace: t.trace + " >" + g.Name()}
-	for _, k := range []string{"$src", "$wrote", "$empty", "$present"} {
+	for _, k := range []string{"$src", "$wrote", "$empty", "$present", "$txt"} {
 		if v, ok := t.vals[k]; ok {
 			start.vals[k] = v
 		}
@@ -2134,7 +2171,7 @@ func (a *tagAnalysis) callInto(fc *frame, t tagTuple, cm *ssa.CallCommon, g *ssa
 // afterCall: the caller's path state after the callee returned through exit e.
 func (a *tagAnalysis) afterCall(nt *tagTuple, e exitT, cm *ssa.CallCommon, g *ssa.Function) {
 	nt.t = e.t.t
-	for _, k := range []string{"$src", "$wrote", "$empty", "$present"} {
+	for _, k := range []string{"$src", "$wrote", "$empty", "$present", "$txt"} {
 		if v, ok := e.t.vals[k]; ok {
 			nt.vals[k] = v
 		} else {
@@ -2547,10 +2584,26 @@ func seqEncoderAnalysis(p *Prog, r *Report, rule string) *tagAnalysis {
 			if ev != "TEXT" && ev != "WS" {
 				a.shapeSites[pos] = true
 			}
+			if ev == "WS" && t.t == sqContent && t.vals["$txt"] == "T" {
+				k := "indentation is written after the element's text: it becomes part of the character data"
+				if _, dup := a.viol[k]; !dup {
+					a.viol[k] = p.Pos(pos)
+				}
+			}
 			step(t, ev, pos)
+			switch {
+			case ev == "TEXT" && t.t == sqContent:
+				t.vals["$txt"] = "T"
+			case ev == "WS":
+			default:
+				delete(t.vals, "$txt")
+			}
 		}
 	}
-	a.onRecurse = func(t *tagTuple, pos token.Pos) { step(t, "RECURSE", pos) }
+	a.onRecurse = func(t *tagTuple, pos token.Pos) {
+		step(t, "RECURSE", pos)
+		delete(t.vals, "$txt")
+	}
 	a.finalOK = func(st int) bool { return st == sqDone || st == sqNone }
 	a.isDone = func(st int) bool { return st == sqDone }
 	return a
